@@ -226,6 +226,23 @@ func Seeded(w io.Writer, seed int64, kind string, n int) error {
 		case "files": // C19
 			c.Kind = "site"
 			c.Doc = graph(rng, 1+rng.Intn(6), "")
+			// busy places: several events of different kinds, dated and undated, at a few shared places
+			pool := []string{"Xqx01", "Xqx02, Xqy02", c.Doc.People[0].BPlac}
+			for k := range c.Doc.People {
+				p := &c.Doc.People[k]
+				for e := rng.Intn(4); e > 0; e-- {
+					p.Lines = append(p.Lines, "1 "+[]string{"BURI", "CENS", "EMIG", "WILL", "BAPM", "RESI", "EVEN", "GRAD"}[rng.Intn(8)])
+					if rng.Intn(2) == 0 {
+						p.Lines = append(p.Lines, fmt.Sprintf("2 DATE %d", 1700+rng.Intn(200)))
+					}
+					if pl := pool[rng.Intn(len(pool))]; pl != "" {
+						p.Lines = append(p.Lines, "2 PLAC "+pl)
+					}
+				}
+				if p.Kind == "burialonly" { // the extra events must not make anybody dead or alive
+					continue
+				}
+			}
 			if rng.Intn(4) > 0 {
 				hostile(rng, &c.Doc)
 			}
